@@ -147,7 +147,7 @@ func (r *Recomposer) registerAnyComposer(rt reflect.Type, fun RecomposeAnyFunc) 
 		return nil, fmt.Errorf("only structs can be recomposed. %s is not a struct type", rt)
 	}
 	c := r.composers[full]
-	if c == nil {
+	if c == nil || c.rtype != rt {
 		c = &composer{
 			any:   fun,
 			short: rt.Name(),
@@ -155,6 +155,10 @@ func (r *Recomposer) registerAnyComposer(rt reflect.Type, fun RecomposeAnyFunc) 
 			rtype: rt,
 		}
 		c.indexes = indexType(c.rtype)
+		if len(c.short) == 0 {
+			// Anonymous types can not be looked up by name.
+			return c, nil
+		}
 		r.composers[c.short] = c
 		r.composers[c.full] = c
 	} else {
